@@ -137,11 +137,99 @@ Theorem E2Ecap_wellformed_run : forall c (names : list (list N)) (rows : list (l
   e2ecap_run c (render_file names rows) = e2ecap_core c names (map Some rows).
 Proof. exact cap_wellformed_run. Qed.
 
+(* ---------------------------------------------------------------------------------------------------------- *)
+(* THE RELATIONAL STATEMENTS.  Property C07 leaves the tie-breaking among equally often evaluated candidates free, so the
+   end-to-end statement must hold for EVERY admissible history of per-batch selections, not only for the transcription
+   Sampler.step.  [isels] = the selections as candidate ids (positions in cap_cands), one list per processed batch;
+   [sels_ok c header ps isels] = one selection per batch and C07's checker accepts every step against the counts the
+   selections themselves imply; [e2ecap_core_sel c header ps isels] = the table when batch k evaluates [nth k isels];
+   [contributing_sel c header ps sels a b] = the tables of exactly the batches whose selection holds {a, b}. *)
+
+Theorem E2Ecap_sels_ok_def : forall c header ps isels,
+  sels_ok c header ps isels =
+  (Nat.eqb (length isels) (nbatches c header ps)
+   && Sampler.valid_runb [] (map (fun cp : Z => (cap_ids (cap_cands c header), cp)) (repeat (g_cap c) (nbatches c header ps)))
+                         (Sampler.derived_obs [] isels))%bool.
+Proof. exact (fun c header ps isels => eq_refl). Qed.
+
+(* (a) for every admissible selection history: sorted, one row per ordered pair, a row IFF requested and selected in at
+   least one batch, score = median over exactly the batches that selected it *)
+Theorem E2Ecap_spec_rel : forall c header ps isels t,
+  sels_ok c header ps isels = true -> e2ecap_core_sel c header ps isels = Some t -> Combos.is_const (g_heur c) = false ->
+  let tables := batch_tables c header ps in
+  let D := common_den (e2e_batches c header ps) in
+  let sels := sel_pairs c header isels in
+  tables <> [] /\ D <> 0%N /\ Forall (fun rows => rows <> [] /\ (N.of_nat (length rows) | D)%N) tables /\
+  length isels = length tables /\
+  StronglySorted (fun r1 r2 : list N * list N * Q => Qle (snd r1) (snd r2)) t /\
+  NoDup (map fst t) /\
+  (forall a b q, In (a, b, q) t <->
+     requested c header a b /\ contributing_sel c header ps sels a b <> [] /\
+     q = Qmake (median2 (map (fun rows => Z.of_N (pair_num header D rows a b)) (contributing_sel c header ps sels a b))) (den_pos D)) /\
+  (forall a b, requested c header a b -> requested c header b a) /\
+  (forall a b, contributing_sel c header ps sels a b = contributing_sel c header ps sels b a /\
+               incl (contributing_sel c header ps sels a b) tables) /\
+  (forall rows a b, In rows tables ->
+     Qeq (Z.of_N (pair_num header D rows a b) # npos D) (cells_cov (column header rows a) (column header rows b)) /\
+     is_max_cov (column header rows a) (column header rows b) (cells_cov (column header rows a) (column header rows b))).
+Proof. exact e2ecap_spec_rel. Qed.
+
+Theorem E2Ecap_spec_constant_rel : forall c header ps isels t,
+  sels_ok c header ps isels = true -> e2ecap_core_sel c header ps isels = Some t -> Combos.is_const (g_heur c) = true ->
+  batch_tables c header ps <> [] /\
+  NoDup (map fst t) /\
+  (forall a b q, In (a, b, q) t <->
+     In (a, b) (cap_cands c header) /\ (exists sel, In sel (sel_pairs c header isels) /\ In (a, b) sel) /\
+     q = Qmake 0 (den_pos (common_den (e2e_batches c header ps)))).
+Proof. exact e2ecap_spec_constant_rel. Qed.
+
+(* (b) fairness for every admissible history (C07_selection_history_fair instantiated) *)
+Theorem E2Ecap_fair_rel : forall c header ps isels t,
+  sels_ok c header ps isels = true -> e2ecap_core_sel c header ps isels = Some t ->
+  let sels := sel_pairs c header isels in
+  (forall a b a' b', requested c header a b -> requested c header a' b' ->
+     length (contributing_sel c header ps sels a b) <= S (length (contributing_sel c header ps sels a' b'))) /\
+  (forall p q, In p (cap_cands c header) -> In q (cap_cands c header) -> nsel sels p <= S (nsel sels q)) /\
+  (forall i j, In i (cap_ids (cap_cands c header)) -> In j (cap_ids (cap_cands c header)) ->
+     Sampler.sel_count isels i <= S (Sampler.sel_count isels j)).
+Proof. exact e2ecap_fair_rel. Qed.
+
+(* (c) the counts the JSON must report: every candidate once with Sampler.sel_count of its id = the number of batches
+   contributing to its median; C07's report checker accepts that table (C07_report_sound applies) *)
+Theorem E2Ecap_counts_rel : forall c header ps isels t,
+  sels_ok c header ps isels = true -> e2ecap_core_sel c header ps isels = Some t ->
+  let sels := sel_pairs c header isels in
+  (forall k, Sampler.get (cap_counter_sel c header isels) k = Sampler.sel_count isels k) /\
+  Sampler.reportb isels (cap_counter_sel c header isels) = true /\
+  (forall p n, In (p, n) (cap_counts_sel c header isels) <-> In p (cap_cands c header) /\ n = nsel sels p) /\
+  map fst (cap_counts_sel c header isels) = cap_cands c header /\
+  (forall p, In p (cap_cands c header) ->
+     nsel sels p = Sampler.sel_count isels (Combos.pidx (cap_cands c header) p) /\
+     nsel sels p = length (contributing_sel c header ps sels (fst p) (snd p))).
+Proof. exact e2ecap_counts_rel. Qed.
+
+(* (d) the deterministic model (selections computed by Sampler.step) is ONE admissible instance: E2Ecap_spec / _fair /
+   _counts above are the relational statements at this instance *)
+Theorem E2Ecap_sel_instance : forall c header ps,
+  let isels := fst (cap_sampler c header (nbatches c header ps)) in
+  sels_ok c header ps isels = true /\
+  e2ecap_core_sel c header ps isels = e2ecap_core c header ps /\
+  sel_pairs c header isels = cap_sels c header ps /\
+  (forall a b, contributing_sel c header ps (sel_pairs c header isels) a b = contributing c header ps a b) /\
+  (forall k, Sampler.sel_count isels k = Sampler.get (cap_counter c header ps) k).
+Proof. exact e2ecap_sel_instance. Qed.
+
+(* C07's boolean checker is complete for the relation (soundness is C07_checker_sound): an admissible step is never rejected *)
+Theorem E2Ecap_checker_complete : forall s L cap sel s',
+  Sampler.valid_step (Sampler.get s) L cap sel (Sampler.get s') -> Sampler.valid_stepb s L cap sel s' = true.
+Proof. exact valid_stepb_complete. Qed.
+
 (* (5) non-vacuity: 3 feature columns + label, 4 batches of 2 rows; target-only mode with cap 3 of 4 candidates (the
    table differs from the non-binding one), pairwise mode with cap 2 of 10 candidates (2 candidates never evaluated: absent
    from the table, 0 in the counts), Constant with cap 3 *)
 Definition E2Ecap_examples := (ex_cap_binding, ex_cap_sels, ex_cap_run, ex_cap_contributing, ex_cap_changes_table, ex_cap_counts,
-                               ex_cap_pairwise, ex_cap_const, ex_cap_spec_hypotheses, ex_cap_zero).
+                               ex_cap_pairwise, ex_cap_const, ex_cap_spec_hypotheses, ex_cap_zero,
+                               ex_rel_instance, ex_rel_other_ties, ex_rel_rejected).
 
 Print Assumptions E2Ecap_spec.
 Print Assumptions E2Ecap_contributing_def.
@@ -154,4 +242,11 @@ Print Assumptions E2Ecap_shuffle_independent.
 Print Assumptions E2Ecap_batch_rows_instance.
 Print Assumptions E2Ecap_text_run.
 Print Assumptions E2Ecap_wellformed_run.
+Print Assumptions E2Ecap_sels_ok_def.
+Print Assumptions E2Ecap_spec_rel.
+Print Assumptions E2Ecap_spec_constant_rel.
+Print Assumptions E2Ecap_fair_rel.
+Print Assumptions E2Ecap_counts_rel.
+Print Assumptions E2Ecap_sel_instance.
+Print Assumptions E2Ecap_checker_complete.
 Print Assumptions E2Ecap_examples.
